@@ -13,9 +13,15 @@ import copy
 
 REGEX_POOL = ['a.*', '.*b$', '[0-9]+']
 STR_POOL = ['a', 'ab', 'b', 'xb', '7', '', 'abc', 'q']
-# user classes: 0 = A, 1 = B(A), 2 = C, 3 = P(MaybePartial)
-SUBCLASS = [[0, 0], [1, 1], [2, 2], [3, 3], [1, 0]]
+# user classes: 0 = A, 1 = B(A), 2 = C, 3 = P(MaybePartial), 4 = S (a pg.Object with a nested pg.Object child)
+SUBCLASS = [[0, 0], [1, 1], [2, 2], [3, 3], [1, 0], [4, 4]]
 OBJ_POOL = [[0, 0, False], [0, 1, False], [1, 0, False], [2, 0, False], [3, 0, False], [3, 1, True]]
+# Instances of S are built by a script selected by the uid (see sym_object); the flag is the TRUE deep
+# partiality of the result (some required field, at any depth, is MISSING_VALUE):
+#   0: complete, built directly                 1: built complete with S.partial(), is_partial / sym_missing
+#   2: S.partial() without the required x          queried (memoised), then a required field of the nested
+#   3: as 1, then the nested field is restored     child's Dict (depth 2) set to MISSING through the child
+SYM_POOL = [[4, 0, False], [4, 1, True], [4, 2, True], [4, 3, False]]
 
 _CLS = None
 
@@ -60,8 +66,50 @@ def classes():
       def missing_values(self, flatten=True):
         return {'x': pg.MISSING_VALUE} if self.partial else {}
 
-    _CLS = [A, B, C, P]
+    T = pg.typing
+
+    @pg.members([('uid', T.Int()), ('w', T.Int()), ('d', T.Dict([('q', T.Int())]))])
+    class C03S2(pg.Object):
+      pass
+
+    @pg.members([('uid', T.Int()), ('x', T.Int()), ('c', T.Object(C03S2))])
+    class C03S(pg.Object):
+      pass
+
+    _CLS = [A, B, C, P, C03S, C03S2]
   return _CLS
+
+
+def sym_object(uid):
+  """A fresh instance of the symbolic class S built by script `uid` (see SYM_POOL)."""
+  import pyglove as pg
+  S, S2 = classes()[4], classes()[5]
+  if uid == 0:
+    return S(uid=0, x=1, c=S2(uid=0, w=1, d={'q': 1}))
+  if uid == 2:
+    return S.partial(uid=2, c=S2(uid=2, w=1, d={'q': 1}))
+  s = S.partial(uid=uid, x=1, c=S2.partial(uid=uid, w=1, d={'q': 1}))
+  _ = s.is_partial                 # derived state is queried (and memoised) while the object is complete
+  _ = s.sym_missing()
+  s.c.d.rebind(q=pg.MISSING_VALUE)
+  if uid == 3:
+    s.c.d.rebind(q=5)
+  return s
+
+
+def deep_missing(x):
+  """Ground truth of partiality: some member, at any depth, is MISSING_VALUE (walks the raw members,
+  never the memoised `sym_missing` / `is_partial`)."""
+  import pyglove as pg
+  if pg.MISSING_VALUE == x:
+    return True
+  if isinstance(x, pg.Symbolic):
+    return any(deep_missing(v) for _, v in x.sym_items())
+  if isinstance(x, (list, tuple)):
+    return any(deep_missing(v) for v in x)
+  if isinstance(x, dict):
+    return any(deep_missing(v) for v in x.values())
+  return bool(getattr(x, 'partial', False))
 
 
 # ------------------------------------------------------------------------------------------
@@ -90,6 +138,8 @@ def to_py(v):
   if t == 'd':
     return {k: to_py(x) for k, x in v[1]}
   if t == 'o':
+    if v[1] == 4:
+      return sym_object(v[2])
     return classes()[v[1]](v[2], v[3])
   raise ValueError(v)
 
@@ -118,7 +168,9 @@ def from_py(x):
     items = x.sym_items() if hasattr(x, 'sym_items') else x.items()
     return ['d', [[k if isinstance(k, str) else repr(k), from_py(y)] for k, y in items]]
   cl = classes()
-  for i, c in enumerate(cl):
+  if type(x) is cl[4]:
+    return ['o', 4, x.sym_getattr('uid'), deep_missing(x)]
+  for i, c in enumerate(cl[:4]):
     if type(x) is c:
       return ['o', i, x.uid, bool(x.partial)]
   return ['?', type(x).__name__]
@@ -438,7 +490,7 @@ class SpecGen:
     if k == 'enum':
       return copy.deepcopy(r.choice(d['vals']))
     if k == 'obj':
-      pool = [o for o in OBJ_POOL if [o[0], d['cls']] in SUBCLASS and not o[2]]
+      pool = [o for o in OBJ_POOL + SYM_POOL if [o[0], d['cls']] in SUBCLASS and not o[2]]
       return ['o'] + r.choice(pool)
     if k == 'list':
       mn = d.get('mn') or 0
